@@ -87,5 +87,100 @@ def unravelKeyPy : Key → KeyOut
 def unravelKeyListCpp (l : List Key) : List KeyOut := l.map unravelKeyCpp
 def unravelKeyListPy (l : List Key) : List KeyOut := l.map unravelKeyPy
 
+/-! ### call-level models of `unravel_key_list` (two C++ overloads) and `unravel_keys` (added for C18, round 2)
+
+  `unravelKeyListCppList`  mirrors tensordict/csrc/utils.cpp `unravel_key_list(const py::list&)`
+  `unravelKeyListCppTuple` mirrors tensordict/csrc/utils.cpp `unravel_key_list(const py::tuple&)` (= the list overload on `py::list(keys)`)
+  `unravelKeyListCppCall`  mirrors the pybind11 overload dispatch of tensordict/csrc/pybind.cpp (list, then tuple, else TypeError)
+  `unravelKeyListPyCall`   mirrors tensordict/utils.py `unravel_key_list` (is_compiling branch)
+  `unravelKeysCppCall`     mirrors tensordict/csrc/pybind.cpp `m.def("unravel_keys", &unravel_key, py::arg("key"))`
+  `unravelKeysPyCall`      mirrors tensordict/utils.py `unravel_keys(*keys)` (is_compiling branch)
+  A call result is `Option`: `none` = the call raises (the exception classes differ between the paths:
+  RuntimeError from C++, ValueError from Python for an invalid member; TypeError on both for a bad container / arity). -/
+
+/-- what a caller hands to `unravel_key_list`: a Python list, a tuple, or any other object -/
+inductive KeysArg where
+  | list (l : List Key)
+  | tuple (l : List Key)
+  | other
+  deriving Repr, Inhabited
+
+/-- the C++ loop: the first member on which `unravel_key` throws aborts the call -/
+def unravelKeyListCppList : List Key → Option (List KeyOut)
+  | [] => some []
+  | k :: rest =>
+    match unravelKeyCpp k with
+    | .err => none
+    | r => (unravelKeyListCppList rest).map (r :: ·)
+
+def unravelKeyListCppTuple (l : List Key) : Option (List KeyOut) := unravelKeyListCppList l
+
+def unravelKeyListCppCall : KeysArg → Option (List KeyOut)
+  | .list l => unravelKeyListCppList l
+  | .tuple l => unravelKeyListCppTuple l
+  | .other => none
+
+/-- the Python comprehension `[unravel_key(key) for key in keys]` -/
+def unravelKeyListPyLoop : List Key → Option (List KeyOut)
+  | [] => some []
+  | k :: rest =>
+    match unravelKeyPy k with
+    | .err => none
+    | r => (unravelKeyListPyLoop rest).map (r :: ·)
+
+def unravelKeyListPyCall : KeysArg → Option (List KeyOut)
+  | .list l => unravelKeyListPyLoop l
+  | .tuple l => unravelKeyListPyLoop l
+  | .other => none
+
+def KeyOut.toOption : KeyOut → Option KeyOut
+  | .err => none
+  | r => some r
+
+/-- `unravel_keys(*args)`: the native binding takes exactly one positional argument -/
+def unravelKeysCppCall : List Key → Option KeyOut
+  | [k] => (unravelKeyCpp k).toOption
+  | _ => none
+
+def unravelKeysPyCall (args : List Key) : Option KeyOut :=
+  if args.length ≠ 1 then none else
+  match args with
+  | k :: _ => (unravelKeyPy k).toOption
+  | [] => none
+
+/-! ### specification vocabulary (not a transcription of code) -/
+
+mutual
+/-- the strings of a key, left to right -/
+def leaves : Key → List String
+  | .str s => [s]
+  | .bad => []
+  | .tup l => leavesL l
+def leavesL : List Key → List String
+  | [] => []
+  | k :: rest => leaves k ++ leavesL rest
+end
+
+mutual
+/-- a well-formed nested key: strings, and tuples whose nested tuples each contain at least one string -/
+def validB : Key → Bool
+  | .str _ => true
+  | .bad => false
+  | .tup l => validLB l
+/-- members of a tuple: a str, or a valid tuple that is not empty of strings -/
+def validLB : List Key → Bool
+  | [] => true
+  | .str _ :: rest => validLB rest
+  | k :: rest => validB k && !(leaves k).isEmpty && validLB rest
+end
+def Valid (k : Key) : Prop := validB k = true
+def ValidL (l : List Key) : Prop := validLB l = true
+
+/-- a result read back as a key (what a second call of `unravel_key` receives) -/
+def KeyOut.toKey : KeyOut → Key
+  | .s name => .str name
+  | .t names => .tup (names.map .str)
+  | .err => .bad
+
 end Key
 end TdVerif
